@@ -9,6 +9,7 @@ mod p_c05;
 mod p_c15;
 mod p_c18;
 mod p_c19;
+mod p_curve;
 mod p_c04;
 mod p_shuffle;
 mod p_keys;
@@ -108,6 +109,9 @@ fn main() {
     }
     run_prop(&mut h, nb::BigintCtx::<nb::P2048>::default(), true);
     run_prop(&mut h, mal::MalachiteCtx::<mal::P2048>::default(), true);
+    if std::env::var("VERIF_R255").map(|v| v != "0").unwrap_or(false) {
+        p_curve::run(&mut h);
+    }
 
     let mut f = std::io::BufWriter::new(std::fs::File::create(outdir.join("ops.txt")).unwrap());
     for l in &h.ops {
